@@ -6,6 +6,7 @@ mod wire;
 
 mod s_acks;
 mod s_api;
+mod s_bytes;
 mod s_delivery;
 mod s_events;
 mod s_match;
@@ -36,11 +37,25 @@ fn scenarios(id: &str, args: &Args) -> Option<Vec<explore::Scenario>> {
     })
 }
 
+#[global_allocator]
+static ALLOC: s_bytes::Counting = s_bytes::Counting;
+
 fn main() {
     // panics inside explored executions are caught and reported as findings; keep stderr quiet
     std::panic::set_hook(Box::new(|_| {}));
     let args = Args::parse();
     let mut rep = Report::new();
+    if args.id == "C06" || args.id == "C07" {
+        if let Some(path) = &args.replay {
+            let v = vutil::read_replay(path);
+            std::process::exit(if s_bytes::replay(&args.id, &v) { 0 } else { 1 });
+        }
+        let t0 = std::time::Instant::now();
+        let mut rep = s_bytes::run(&args, &args.id);
+        rep.set("max_shard_wall_ms", vutil::serde_json::json!(t0.elapsed().as_millis() as u64));
+        rep.write(&args);
+        return;
+    }
     let Some(scen) = scenarios(&args.id, &args) else {
         rep.machinery_error = Some(format!("simcheck: unknown check {}", args.id));
         rep.write(&args);
